@@ -153,10 +153,11 @@ PROPS["C03"] = dict(
          "TraceRel.tla checks the trap relation between the recorded outcomes; ErrDecimal edges/histories validated against ErrDec.tla",
 )
 PROPS["C05"] = dict(
+    extra_bigint=True,
     level_text='Recorded groups of the same call under every aliasing pattern (real pointer identity) must have identical outcomes (TraceRel); BigInt histories with aliased receivers/arguments are validated by BigIntM; Modf with outputs aliasing the receiver by Conv.',
     mc=[],
-    drivers=[("alias", "TraceRel")],
-    attr=attr_group("alias"),
+    drivers=[("alias", "TraceRel"), "bigint"],
+    attr=lambda ev, names: (fam(ev, "g") and ev.get("gk") == "alias") or fam(ev, "bh"),
     rule="each case is executed once per aliasing pattern with real pointer identity; all recorded outcomes must be identical",
 )
 def attr_c06(ev, names):
